@@ -10,6 +10,7 @@ import (
 	"fmt"
 	"os"
 	"strings"
+	"sync/atomic"
 	"testing"
 	"time"
 
@@ -168,10 +169,21 @@ func (w *world) acquiredBy(c int) {
 	}
 }
 
-func newBackend(kind string) afero.Fs {
+var osSandboxSeq atomic.Int64
+
+func newBackend(x *gosim.Exec, kind string) afero.Fs {
 	switch kind {
 	case "mem":
 		return afero.NewMemMapFs()
+	case "os":
+		// the real OS filesystem (tmpfs) sharing the bubble's clock; one sandbox per execution, removed at tear-down
+		dir := fmt.Sprintf("/dev/shm/verif-c01-%d/%d", os.Getpid(), osSandboxSeq.Add(1))
+		fs, err := vfsx.NewClockedOS(dir)
+		if err != nil {
+			panic(err)
+		}
+		x.Cleanup(fs.Destroy)
+		return fs
 	default:
 		return vfsx.NewPosixMem()
 	}
@@ -189,7 +201,7 @@ func body(sc scenario) func(x *gosim.Exec) {
 			}
 		}
 		x.User = w
-		backend := newBackend(sc.Backend)
+		backend := newBackend(x, sc.Backend)
 		_ = backend.MkdirAll(lockRoot, 0o755)
 		old := time.Now().Add(-10 * time.Second)
 		switch sc.Init {
@@ -296,9 +308,13 @@ func scenarios() []scenario {
 	add("dead-nofile/2xTry-override", "posixmem", "dead-nofile", 2, T(true), T(true))
 	add("dead/Lock-override+Lock-override P1", "posixmem", "dead", 1, L(true), L(true))
 	add("free/2xTry(mem)", "mem", "free", 2, T(false), T(false))
+	add("free/2xTry(os)", "os", "free", 2, T(false), T(false))
+	add("dead/Try-override+Try(os)", "os", "dead", 2, T(true), T(false))
 	if ev.Thorough() {
 		add("dead/Lock-override+Lock-override", "posixmem", "dead", 2, L(true), L(true))
 		add("free/Try+Lock(mem)", "mem", "free", 2, T(false), L(false))
+		add("free/Try+Lock(os)", "os", "free", 2, T(false), L(false))
+		add("dead/2xTry-override(os)", "os", "dead", 2, T(true), T(true))
 		add("free/3:Try+Lock+Lock", "posixmem", "free", 2, T(false), L(false), L(false))
 		add("free/Lock+Lock hold40", "posixmem", "free", 2, L(false), L(false))
 		add("dead/2xTry-override hold40", "posixmem", "dead", 2, T(true), T(true))
@@ -377,6 +393,23 @@ func TestC01(t *testing.T) {
 		}
 		fmt.Fprintf(os.Stderr, "[C01] %-40s executions=%d violations=%d cpu=%.0fs capped=%v\n", sc.Name, s.Execs, countViol(s), s.WallS, s.Capped)
 	}
+	// the same scenario on PosixMem and on the real OS filesystem must give the same schedule tree and the same outcomes:
+	// the in-memory stand-in is validated against the real thing on every run
+	agree := map[string]bool{}
+	for _, sc := range scs {
+		if !strings.HasSuffix(sc.Name, "(os)") {
+			continue
+		}
+		twin := strings.TrimSuffix(sc.Name, "(os)")
+		if a, b := stats[twin], stats[sc.Name]; a != nil && b != nil && !a.Capped && !b.Capped {
+			same := a.Execs == b.Execs && a.Transitions == b.Transitions && fmt.Sprint(a.Outcomes) == fmt.Sprint(b.Outcomes)
+			agree[twin] = same
+			if !same {
+				rep.EngineError("backend stand-in is not faithful: scenario %q gives executions=%d transitions=%d outcomes=%v on PosixMem and executions=%d transitions=%d outcomes=%v on the OS filesystem", twin, a.Execs, a.Transitions, a.Outcomes, b.Execs, b.Transitions, b.Outcomes)
+			}
+		}
+	}
+	rep.Coverage["posixmem_agrees_with_os_backend"] = agree
 	rep.Coverage["states"] = total.Nodes
 	rep.Coverage["transitions"] = total.Transitions
 	rep.Coverage["traces_validated_against_impl"] = total.Validated
@@ -438,4 +471,67 @@ func TestProfile(t *testing.T) {
 	start := time.Now()
 	e.Explore(t)
 	fmt.Printf("execs=%d transitions=%d in %v\n", e.Stats.Execs, e.Stats.Transitions, time.Since(start))
+}
+
+// TestDebugBackendDiff (development aid): finds a schedule whose trace differs between PosixMem and the OS backend.
+func TestDebugBackendDiff(t *testing.T) {
+	if os.Getenv("VERIF_DEBUG") == "" {
+		t.Skip()
+	}
+	var a, b scenario
+	for _, sc := range scenarios() {
+		if sc.Name == os.Getenv("VERIF_DEBUG") {
+			a = sc
+		}
+		if sc.Name == os.Getenv("VERIF_DEBUG")+"(os)" {
+			b = sc
+		}
+	}
+	ga, gb := toScenario(a), toScenario(b)
+	stack := []gosim.Work{{}}
+	n := 0
+	for len(stack) > 0 && n < 40000 {
+		w := stack[len(stack)-1]
+		stack = stack[:len(stack)-1]
+		ra := gosim.RunOnce(t, &ga.Opts, ga.Body, w.Prefix, nil)
+		rb := gosim.RunOnce(t, &gb.Opts, gb.Body, w.Prefix, nil)
+		n++
+		same := len(ra.Trace) == len(rb.Trace)
+		for i := 0; same && i < len(ra.Trace); i++ {
+			same = ra.Trace[i] == rb.Trace[i]
+		}
+		if !same {
+			fmt.Printf("schedule %v differs\n", w.Prefix)
+			for i := 0; i < len(ra.Trace) || i < len(rb.Trace); i++ {
+				x, y := "", ""
+				if i < len(ra.Trace) {
+					x = ra.Trace[i]
+				}
+				if i < len(rb.Trace) {
+					y = rb.Trace[i]
+				}
+				m := "  "
+				if x != y {
+					m = "!="
+				}
+				fmt.Printf("%s %-70s | %s\n", m, x, y)
+			}
+			return
+		}
+		for i := len(w.Prefix); i < len(ra.Points); i++ {
+			p := ra.Points[i]
+			for alt := 1; alt < p.N; alt++ {
+				cost := p.CostBefore
+				if p.LastEnabled || (p.Tick && alt == p.N-1) {
+					cost++
+				}
+				if cost > ga.Opts.Bound {
+					continue
+				}
+				pre := append(append([]int{}, ra.Choices[:i]...), alt)
+				stack = append(stack, gosim.Work{Prefix: pre})
+			}
+		}
+	}
+	fmt.Println("no difference in", n, "executions")
 }
